@@ -206,6 +206,31 @@ def _flag_in_guard(pa: PathAnalysis, site: ast.AST, fn: Func) -> List[str]:
     return sorted(cands or [])
 
 
+def _initialises_per_iteration(s: ast.AST, L: ast.AST, nodes) -> bool:
+    """s is executed once per iteration of the loop L before every node of `nodes`: it sits in a statement list inside
+    L (only if / with / try between it and L, no inner loop) and each of the nodes lies inside a LATER statement of that
+    same list - whether the code before it is written with early `continue`s or as nesting."""
+    a, child = parent(s), s
+    block = None
+    for fld in ("body", "orelse", "finalbody"):
+        lst = getattr(a, fld, None)
+        if isinstance(lst, list) and s in lst:
+            block = lst
+    if block is None:
+        return False
+    later = block[block.index(s) + 1:]
+    inside_later = set()
+    for st in later:
+        inside_later |= {id(x) for x in ast.walk(st)}
+    if not all(id(n) in inside_later for n in nodes):
+        return False
+    while a is not None and a is not L:
+        if isinstance(a, (ast.For, ast.While, ast.AsyncFor, ast.FunctionDef, ast.AsyncFunctionDef, ast.Lambda)):
+            return False
+        a = parent(a)
+    return a is L
+
+
 def _check_guard(prog, res, S, pa, fn, L, site, tests) -> None:
     where, text = fn.loc(site), norm(site)
     worlds = pa.worlds_at(site)
@@ -224,10 +249,11 @@ def _check_guard(prog, res, S, pa, fn, L, site, tests) -> None:
         falses = [s for s, v in defs if v.value is False]
         trues = [s for s, v in defs if v.value is True]
         first_test_line = min(t.lineno for t, _ in tests)
+        test_nodes = [t for t, _ in tests]
         for s in falses:
-            if parent(s) is not L or s.lineno > first_test_line:
+            if not _initialises_per_iteration(s, L, test_nodes):
                 problems.append(f"'{F} = False' at line {s.lineno} is not the per-transaction initialisation before the overlap tests")
-        if not any(parent(s) is L and s.lineno < first_test_line for s in falses):
+        if not any(_initialises_per_iteration(s, L, test_nodes) for s in falses):
             problems.append(f"'{F}' is not initialised to False at the start of each transaction")
         for t, ov in tests:
             if not any(isinstance(s, ast.Assign) and s in trues for s in t.body):
